@@ -240,8 +240,14 @@ class HHRun:
         if any(a < b for a, b in zip(cnts, cnts[1:])):
             self._fail("C13", f"{w} counts not non-increasing: {cnts}")
         for kb, c in ans:
-            if int(h[kb]) != c:
-                self._fail("C13", f"{w}: reported count {c} != hh[{kb!r}] = {int(h[kb])}")
+            try:
+                got_c = int(h[kb])
+            except Exception as e:  # e.g. a reported key longer than max_key_len: it cannot be a key of this sketch at all
+                got_c = None
+                self._fail("C13", f"{w}: reported key {kb!r} is not a key of this sketch (hh[key] raises {type(e).__name__})")
+                self._fail("C03", f"{w}: reported ({kb!r}, {c}) but hh[{kb!r}] raises {type(e).__name__}: the key was never added to this sketch")
+            if got_c is not None and got_c != c:
+                self._fail("C13", f"{w}: reported count {c} != hh[{kb!r}] = {got_c}")
             if c < tval:
                 self._fail("C13", f"{w}: reported count {c} below threshold {tval}")
             kid = self.kid.get(kb)
